@@ -179,6 +179,10 @@ class Producer(object):
         else:
             self._stop_requested = True
 
+    def reset(self):
+        '''Forget a stop request that belongs to a run that has ended.'''
+        self._stop_requested = False
+
 
 class PipelineState(enum.Enum):
     stopped = 'stopped'
@@ -211,6 +215,7 @@ class Pipeline(object):
         if self._state == PipelineState.stopped:
             self._state = PipelineState.running
             self._item_queue.open()
+            self._producer.reset()
             self._producer_task = asyncio.get_event_loop().create_task(self._run_producer_wrapper())
 
             if self._concurrency:
